@@ -481,11 +481,13 @@ def snapshot_provenance(run, model, rule):
                             # an explanatory temporary: look at what it was bound to
                             exprs = [st.value for st in ast.walk(fi.node) if isinstance(st, ast.Assign) and any(isinstance(tg, ast.Name) and tg.id == p.ast.id for tg in st.targets)] or [p.ast]
                         def by_identity(e):
+                            # identity of the snapshot objects themselves -- not of something they share (two
+                            # different snapshots may well use one capture function or one location)
                             for c in ast.walk(e):
-                                if isinstance(c, ast.Compare) and any(isinstance(o, ast.Is) for o in c.ops):
+                                if isinstance(c, ast.Compare) and len(c.ops) == 1 and isinstance(c.ops[0], ast.Is) and isinstance(c.left, ast.Name) and isinstance(c.comparators[0], ast.Name):
                                     return True
                                 # ``id(snap) in <set of ids>``: identity through id()
-                                if isinstance(c, ast.Compare) and len(c.ops) == 1 and isinstance(c.ops[0], ast.In) and isinstance(c.left, ast.Call) and isinstance(c.left.func, ast.Name) and c.left.func.id == "id":
+                                if isinstance(c, ast.Compare) and len(c.ops) == 1 and isinstance(c.ops[0], ast.In) and isinstance(c.left, ast.Call) and isinstance(c.left.func, ast.Name) and c.left.func.id == "id" and len(c.left.args) == 1 and isinstance(c.left.args[0], ast.Name):
                                     return True
                             return False
 
